@@ -1939,6 +1939,12 @@ fn gen_plans(seed: u64, tier: &str, rows: &[Row], peer: &str) -> (Vec<(CaseCfg, 
         plans.push(Plan { inst: 1, id: format!("s{seed}-c13-mapped-{tag}"), cfg: cfg1.clone(), ops });
     }
     {
+        // testbed mode OFF and no credentials at all (TCP: no socket peer): every row, the testbed self-service rows
+        // included - only the public endpoints may be served, the testbed rows must not exist
+        let ops = all_rows_ops(rows, "tcp", "none", &["ca1"], false, false);
+        plans.push(Plan { inst: 1, id: format!("s{seed}-c13-testbed-off-anonymous"), cfg: cfg1.clone(), ops });
+    }
+    {
         // a valid token of another user wins over the peer
         let u = users.iter().find(|u| u.role == other_role).unwrap();
         let mut ops = vec![login_op(rows, u, "T1", "unix")];
@@ -2353,7 +2359,7 @@ fn gen_plans(seed: u64, tier: &str, rows: &[Row], peer: &str) -> (Vec<(CaseCfg, 
 
     // ---- instance 3 (C20, only as root): several system accounts mapped, the connecting thread's effective
     // uid and gid varied; the identity must be the user of the effective UID, whatever the gid
-    let mut insts = vec![(cfg0, true), (cfg1, false), (cfg2, true)];
+    let mut insts = vec![(cfg0, true), (cfg1, true), (cfg2, true)];
     if nix::unistd::geteuid().is_root() {
         let name_of = |u: u32| nix::unistd::User::from_uid(nix::unistd::Uid::from_raw(u)).ok().flatten().map(|x| x.name);
         let wanted: [(u32, Option<&str>); 5] = [(0, Some("readonly")), (1, Some("admin")), (2, Some("override")), (3, Some("scoped")), (65534, None)];
